@@ -12,7 +12,12 @@ PROP = dict(
                    "Counterexample theorems show the race without the mutex and the two winners of Load+Store. Length() of the sets is "
                    "specified as the number of keys present (C20_length_counts_present); Put/Remove calls in which no key is both put and "
                    "removed leave the same set in every order (C20_setlen_final, C20_setlen_order_irrelevant), and a quiescent Length that is "
-                   "one too small after two overlapping Removes of one key has no sequential explanation (C20_length_drift_not_linearizable).",
+                   "one too small after two overlapping Removes of one key has no sequential explanation (C20_length_drift_not_linearizable). "
+                   "Fifth round: when Close has returned the error report of every failing closer is complete, for every n, subset and schedule "
+                   "(C20_close_reports_before_return; with Done not deferred to the end of the goroutine it is not: "
+                   "C20_close_report_after_return_counterexample); DefinitionRegistry.GetMetaOrRegister is one LoadOrStoreFn of the registry's map, "
+                   "so for every number of callers of one name and every schedule each caller holds the definition the registry keeps "
+                   "(C20_getMetaOrRegister_one_definition), whereas lookup-build-Store hands out two (C20_getMetaOrRegister_check_then_act_counterexample).",
         level_note="Partial by nature: the model is sequentially consistent and assumes sync.Map/Mutex/WaitGroup primitives atomic; the Go "
                    "memory model, sync.Map internals and what scanners/closers touch internally are covered only by the race-detector runs "
                    "(real starts with simultaneously failing scanners, real shutdowns) and by linearizability checks of recorded histories.",
@@ -31,7 +36,16 @@ PROP = dict(
              "sync2.Map (50%), ConcurrentSets, GenericConcurrentSets; 2-4 goroutines x 1-3 calls (max 8) over 2-3 keys, random "
              "Gosched inside calls; set histories use Put / Exists / Remove / Length (N) and end with one quiescent Length; a Length that "
              "overlaps a Put/Remove is a Range underneath and is classified like Range (range-not-atomic), a quiescent one never is; histories are compared lin/nonlin between the harness checker and the model's checker; "
-             "distinct = distinct scenario lines",
+             "distinct = distinct scenario lines; "
+             "fifth round (drawn after everything else): 8 (thorough 40) `closel <n> <errmask> <rounds> <seed>` in ONE fresh race-detector child process "
+             "whose first action installs a user logger through syslog.SetLogger / app.SetLogger (100 us per record, counts completed error records): 1-16 closers, "
+             "all failing (half of the cases), one failing, or a random subset, 3 (6) fresh Apps each; the record count is read immediately after App.Close "
+             "returned and, only if it is below the number of failing closers, again for 300 ms (oracle close-report-after-return: no record arrives "
+             "after the return); 4 (16) `gmor <g> <trials>`: 2-24 goroutines released from a spinning barrier call GetMetaOrRegister(one name, own "
+             "component) on up to 300 (1500) fresh support.DefaultDefinitionRegistry() (oracle getmeta-two-winners: one definition handed out, listed once, "
+             "the one GetMetaByName returns); 4 (16) `gscan <n> <starts> <seed>` in a race-detector child process: 3 (8) real starts of 8-48 (sometimes 2-7) "
+             "components with a user DefinitionRegistryPostProcessor that load-or-stores ONE shared extra definition for each of them, the calls lined "
+             "up at a barrier (oracle scan-two-definitions)",
         trusted_base=COMMON_TB + ["the reading of Facts.scanSkel/closeSkel/sync2Methods/concurrentSetMethods into guards and primitive "
                                   "sequences (Ioc.Conc.scanShape, closeShape, factProgs) and the go/ast skeleton extractor",
                                   "the Go race detector (go build -race) as the observer of unsynchronised accesses in the real runs",
